@@ -700,7 +700,7 @@ class AsyncServer:
 
         .. seealso:: :meth:`Server.stream`
         """
-        async for z in async_fifo_stream(
+        results = async_fifo_stream(
             data_stream,
             self._enqueue,
             capacity=self._capacity,
@@ -709,5 +709,12 @@ class AsyncServer:
             preprocessor=preprocessor,
             return_x=return_x,
             return_exceptions=return_exceptions,
-        ):
-            yield z
+        )
+        try:
+            async for z in results:
+                yield z
+        finally:
+            # Close the inner generator now rather than whenever it is garbage-collected,
+            # so that its feeder task has stopped enqueuing requests by the time the caller's
+            # `aclose()` returns (in particular before `__aexit__` shuts the workers down).
+            await results.aclose()
